@@ -244,7 +244,7 @@ func TestVerifFeeMarketRows(t *testing.T) {
 	}
 
 	for c := 0; c < calls; {
-		small := rng.Intn(4) == 0
+		small := rng.Intn(4) == 0 || c == 0 // the first seeded chain is always small-valued (TLC half of the binding)
 		cls := "wide"
 		if small {
 			cls = "small"
